@@ -136,7 +136,7 @@ func RunC17(c *Ctx) error {
 	}
 	nJobs := 50
 	if c.Tier == "thorough" {
-		nJobs = 2500
+		nJobs = 600
 	}
 	type batch struct {
 		drv  *sut.Driver
@@ -146,7 +146,7 @@ func RunC17(c *Ctx) error {
 	var batches []*batch
 	for _, drv := range drvs.List {
 		r := prng.Sub(c.Seed, "c17/"+drv.Grammar.ID, 0)
-		pool := newPool(drv.Grammar, r, drv.HasLexer, c.Tier == "thorough")
+		pool := newPool(drv.Grammar, r, drv.HasLexer, false)
 		var jobs []harness.Job
 		for _, v := range drv.Variants {
 			for k := 0; k < nJobs; k++ {
@@ -161,6 +161,9 @@ func RunC17(c *Ctx) error {
 			}
 		}
 		per := 40
+		if c.Tier == "thorough" {
+			per = 25
+		}
 		for i := 0; i < len(jobs); i += per {
 			j := i + per
 			if j > len(jobs) {
@@ -193,7 +196,7 @@ func RunC17(c *Ctx) error {
 	}
 	err = c.ParallelDo(len(batches), func(w, i int) error {
 		b := batches[i]
-		out, err := runBatch(c, b.drv, b.jobs, true, 15*time.Minute)
+		out, err := runBatch(c, b.drv, b.jobs, true, 40*time.Minute)
 		if err != nil {
 			return err
 		}
